@@ -85,6 +85,8 @@ class InterpV:
             return self.extrapolate
         if name == "deriv" and self.call_style == "poly":
             return BoundLib("poly.deriv", self)
+        if name == "derivatives" and self.call_style == "krogh":
+            return BoundLib("interp.derivatives", self)
         raise ev.err(f"interpolant attribute {name}", node, mod)
 
     def sym_setattr(self, ev, name, v, node, mod):
@@ -99,6 +101,11 @@ class InterpV:
 class DerivV:
     def __init__(self, interp, order):
         self.interp, self.order = interp, order
+
+    def sym_getattr(self, ev, name, node, mod):
+        if name == "deriv":
+            return BoundLib("poly.deriv", self)
+        raise ev.err(f"derivative polynomial attribute {name}", node, mod)
 
     def sym_call(self, ev, args, kwargs, n, mod):
         if len(args) != 1 or kwargs:
@@ -275,7 +282,16 @@ def intrinsics(reg: Registry):
         nu = _const_int(k.get("n", a[1] if len(a) > 1 else sp.Integer(1)))
         return DerivPP(it, nu, it.effective_extrapolation())
 
+    def krogh_derivatives(ev, a, k):
+        # KroghInterpolator.derivatives(x, der=None): the derivatives of orders 0 .. der-1 stacked along a new leading axis
+        it, x = a[0], a[1]
+        der = k.get("der", a[2] if len(a) > 2 else None)
+        if der is None:
+            raise AnalysisError("KroghInterpolator.derivatives without der (all derivatives)")
+        return Tup([it.ev(i, x) for i in range(_const_int(der))], "list")
+
     return {
+        "interp.derivatives": krogh_derivatives, "poly.deriv": polyder,
         "ppoly.derivative": ppoly_derivative, "ppoly.derivative2": ppoly_derivative2, "spline.derivative": spline_derivative,
         "scipy.interpolate.UnivariateSpline": spline,
         "scipy.interpolate.InterpolatedUnivariateSpline": spline,
